@@ -104,11 +104,14 @@ impl ProxySettings {
         }
 
         if let Some(host) = url.host_str() {
-            if !self
-                .no_proxy_hosts
-                .iter()
-                .any(|x| host.ends_with(x.to_lowercase().as_str()))
-            {
+            if !self.no_proxy_hosts.iter().any(|x| {
+                let x = x.to_lowercase();
+                // An entry matches the host itself and its subdomains, empty entries match nothing.
+                !x.is_empty()
+                    && host
+                        .strip_suffix(x.as_str())
+                        .is_some_and(|rest| rest.is_empty() || rest.ends_with('.'))
+            }) {
                 return match url.scheme() {
                     "http" => self.http_proxy.as_ref(),
                     "https" => self.https_proxy.as_ref(),
